@@ -66,12 +66,23 @@ def extract_tables():
 
 
 def theorems_of(prop):
+    """fully qualified names of every `theorem` in Props/<prop>.lean (namespace blocks tracked)"""
     path = os.path.join(LEAN, "SkimModel", "Props", prop + ".lean")
     src = strip_comments(open(path).read())
-    ns = re.findall(r"^namespace\s+(\S+)", src, re.M)
-    names = re.findall(r"^theorem\s+(\S+)", src, re.M)
-    pre = (ns[0] + ".") if ns else ""
-    return [pre + n for n in names]
+    stack, out = [], []
+    for line in src.split("\n"):
+        m = re.match(r"^namespace\s+(\S+)", line)
+        if m:
+            stack.append(m.group(1))
+            continue
+        m = re.match(r"^end\s+(\S+)", line)
+        if m and stack and stack[-1] == m.group(1):
+            stack.pop()
+            continue
+        m = re.match(r"^(?:private\s+|protected\s+)?theorem\s+(\S+)", line)
+        if m:
+            out.append(".".join(stack + [m.group(1)]))
+    return out
 
 
 def lean_build(prop, thorough=False):
@@ -128,20 +139,25 @@ def harness_build():
             raise BuildError("harness-build", out[-6000:])
 
 
-def run_lines(binary, lines, timeout=3600, cwd=None):
+def run_lines(binary, lines, timeout=900, cwd=None):
     if not lines:
         return []
-    p = subprocess.run([binary], input="\n".join(lines) + "\n", stdout=subprocess.PIPE, stderr=subprocess.PIPE,
-                       text=True, errors="replace", timeout=timeout, env=ENV, cwd=cwd)
-    out = p.stdout.split("\n")
+    try:
+        p = subprocess.run([binary], input="\n".join(lines) + "\n", stdout=subprocess.PIPE, stderr=subprocess.PIPE,
+                           text=True, errors="replace", timeout=timeout, env=ENV, cwd=cwd)
+        out = p.stdout.split("\n")
+        rc = p.returncode
+    except subprocess.TimeoutExpired:
+        out, rc = [], "timeout"
     if out and out[-1] == "":
         out.pop()
     if len(out) != len(lines):
-        # the process died (abort / stack overflow): bisect so that one bad case does not hide the rest
+        # the process died or hung (abort / stack overflow / deadlock): bisect so that one bad case does not hide the rest
         if len(lines) == 1:
-            return ["crash:rc=%s" % p.returncode]
+            return ["hang" if rc == "timeout" else "crash:rc=%s" % rc]
         h = len(lines) // 2
-        return run_lines(binary, lines[:h], timeout, cwd) + run_lines(binary, lines[h:], timeout, cwd)
+        t2 = max(30, timeout // 2) if rc == "timeout" else timeout
+        return run_lines(binary, lines[:h], t2, cwd) + run_lines(binary, lines[h:], t2, cwd)
     return out
 
 
@@ -265,6 +281,10 @@ def run_property(mod, tier, seed, replay=None):
     thms, audited, checker = [], {}, ""
     proof_err = None
     try:
+        thms = theorems_of(prop)
+    except Exception:
+        thms = []
+    try:
         thms, audited, checker = lean_build(prop, thorough=(tier == "thorough"))
     except BuildError as e:
         proof_err = e
@@ -310,7 +330,7 @@ def run_property(mod, tier, seed, replay=None):
             if first_mismatch is None:
                 first_mismatch = (idx, r)
             continue
-        if len(reported_sigs) >= 8:
+        if len(reported_sigs) >= 3:
             continue
         small = shrink(prop, mod, r, kind, strict_model)
         fid = mod.classify(small) if hasattr(mod, "classify") else None
